@@ -12,9 +12,18 @@ from lib import core, gen, gendoc, build, drv as D
 ID = 'C17'
 
 
+NSPECIAL = 12          # hand-written documents at the head of docs_for()
+
+
 def docs_for(rng):
     docs = [b'mail <me@example.org> and <you@example.com>\n', b'x[^a] y[^b]\n\n[^a]: one\n\n[^b]: two\n', b'# H #\n\n{{TOC}}\n\n## H2 ##\n\n[H][]\n',
-            b'Title: T\nAuthor: A\n\n"quoted" -- text...\n\n| a | b |\n|---|---|\n| c | d |\n', b'![img](p.png "t")\n\n[#c1]\n\n[#c1]: Cite.\n', b'{++a++}{--b--} `c` $x$\n']
+            b'Title: T\nAuthor: A\n\n"quoted" -- text...\n\n| a | b |\n|---|---|\n| c | d |\n', b'![img](p.png "t")\n\n[#c1]\n\n[#c1]: Cite.\n', b'{++a++}{--b--} `c` $x$\n',
+            # raw-source filters naming several formats, abbreviations, glossaries, languages: library helpers with process-wide state (strtok, static buffers) show here
+            b' '.join(b'`<b>H%d</b>`{=latex html} `\\emph{L%d}`{=html, latex; odt}' % (i, i) for i in range(60)) + b'\n',
+            b'`<b>H1</b>`{=latex html} and `\\textbf{B0}`{=html latex beamer} `<i>o</i>`{=odt, html}\n\n```{=html latex}\n<i>blk1</i>\n```\n',
+            b'x `<u>H2</u>`{=html;latex} y `Z2`{=memoir beamer latex}\n\n```{=latex html odt}\nblk2 & raw\n```\n\n`only`{=html}\n',
+            b'language: de\n\n"Zitat" [^n]\n\n[^n]: Fu\xc3\x9fnote\n', b'language: fr\nquotes language: es\n\n"citation" \'x\' [#c2]\n\n[#c2]: R\xc3\xa9f.\n',
+            b'The HTML and CSS terms [?glx].\n\n[>HTML]: Hypertext\n\n[>CSS]: Sheets\n\n[?glx]: gloss\n']
     c = gen.corpus_list()
     for d in rng.sample(c, 14):
         docs.append(d[:4000].rsplit(b'\n', 1)[0] + b'\n' if len(d) > 4000 else d)
@@ -61,13 +70,17 @@ def parse_tsan(text):
 
 
 def work(job):
-    seed, run, nthreads, iters = job
+    seed, run, nthreads, iters = job[:4]
+    focus = job[4] if len(job) > 4 else None
     r = core.JobResult()
     exe = build.build('tsan-nopool', ('threads',))['threads']
     rng = core.job_rng(seed, ID, run)
     tdir = tempfile.mkdtemp(prefix='mmdv-c17-', dir=D.SCRATCH_ROOT)
     try:
         docs = docs_for(rng)
+        if focus is not None:
+            # every thread works on the same small family of documents: maximal contention on whatever helper that family exercises
+            docs = [docs[focus]] * 2 + [docs[(focus + 1) % NSPECIAL]]
         df = os.path.join(tdir, 'docs.bin')
         with open(df, 'wb') as f:
             f.write(struct.pack('<I', len(docs)))
@@ -131,6 +144,8 @@ def main():
     for j in range(runs):
         nt = [2, 4, 8, 16][j % 4]
         jobs.append((chk.seed, j, nt, 60 if nt <= 4 else 30))
+    for f in range(NSPECIAL):
+        jobs.append((chk.seed, 1000 + f, 8, 40 if not chk.thorough else 200, f))
     # each run is itself multi-threaded: 4 at a time
     chk.run_jobs(work, jobs, nproc=4)
     return chk.finish()
